@@ -282,8 +282,8 @@ pub fn run_c05() {
     let recs = records();
     let big_len = recs[2].as_ref().map(|r| alloy_rlp::encode(r).len()).unwrap_or(0);
     let mut st = C05 { decodes: 0, accepted: 0, rejected_by_rule: Default::default(), distinct: Default::default(), problems: vec![] };
-    let prev_hook = std::panic::take_hook();
-    std::panic::set_hook(Box::new(|_| {}));
+    // caught panics are verdicts here; keep the location-recording hook, just silence its printing
+    mc::quiet_panics(true);
 
     /* ---- part 1: round trip over the packet grid ---- */
     // IVs avoid a carry out of the low 64 counter bits inside the header (the width of the
@@ -333,7 +333,13 @@ pub fn run_c05() {
     for p in &packets {
         for dst in &ids {
             let (expected, aad) = ref_encode(p, dst);
-            let got = p.clone().encode(dst);
+            let got = match catch_unwind(AssertUnwindSafe(|| p.clone().encode(dst))) {
+                Ok(g) => g,
+                Err(_) => {
+                    st.problem("encode never panics", &format!("panic:encode:{}", flag(&p.kind)), format!("encode panicked for {:?}", p), dst, &expected);
+                    continue;
+                }
+            };
             roundtrips += 1;
             if got != expected {
                 st.problem("encoded datagram equals the discv5.1 layout", &format!("layout:{}", flag(&p.kind)), format!("encode differs from reference for {:?}", p), dst, &got);
@@ -369,6 +375,40 @@ pub fn run_c05() {
     }
     rep.set("roundtrips", roundtrips);
     rep.set("roundtrip_packets", packets.len() as u64);
+
+    /* ---- part 1c: IVs whose low 64 bits carry inside the header ---- */
+    // The width of the masking counter is not pinned by the property (64-bit big-endian here, 128 bit
+    // in other implementations), so the reference layout is not compared for these IVs — but
+    // whatever width is used, decoding what was encoded must give the packet back.
+    let carry_ivs: Vec<u128> = vec![u64::MAX as u128, (7u128 << 64) | (u64::MAX as u128 - 1), u128::MAX, (1u128 << 64) - 3, (0xabcdu128 << 64) | (u64::MAX as u128 - 2)];
+    let mut carry_roundtrips = 0u64;
+    for iv in &carry_ivs {
+        let samples = vec![
+            VPacket { iv: *iv, message_nonce: nonces[2], kind: PacketKind::Message { src_id: ids[1] }, message: vec![0x5a; 44] },
+            VPacket { iv: *iv, message_nonce: nonces[1], kind: PacketKind::WhoAreYou { id_nonce: [9; 16], enr_seq: 3 }, message: vec![] },
+            VPacket { iv: *iv, message_nonce: nonces[0], kind: PacketKind::Handshake { src_id: ids[0], id_nonce_sig: vec![0xa1; 64], ephem_pubkey: vec![0xb2; 33], enr_record: recs[1].clone() }, message: vec![0x77; 44] },
+        ];
+        for p in &samples {
+            for dst in &ids {
+                carry_roundtrips += 1;
+                let r = catch_unwind(AssertUnwindSafe(|| {
+                    let bytes = p.clone().encode(dst);
+                    let d = VPacket::decode(dst, &bytes);
+                    (bytes, d)
+                }));
+                match r {
+                    Err(_) => st.problem("encode / decode never panic", &format!("panic:carry-iv:{}", flag(&p.kind)), format!("panic on {:?}", p), dst, &[]),
+                    Ok((bytes, Ok((q, aad)))) => {
+                        if &q != p || aad != p.authenticated_data() {
+                            st.problem("decode(encode(p)) == p", &format!("roundtrip-carry-iv:{}", flag(&p.kind)), format!("{:?} != {:?}", q, p), dst, &bytes);
+                        }
+                    }
+                    Ok((bytes, Err(e))) => st.problem("decode(encode(p)) == p", &format!("roundtrip-carry-iv-err:{}", flag(&p.kind)), format!("decode of the node's own encoding failed: {e} (iv {:032x})", iv), dst, &bytes),
+                }
+            }
+        }
+    }
+    rep.set("carry_iv_roundtrips", carry_roundtrips);
 
     /* ---- part 1b: the same under configured protocol identities ---- */
     // A node configured with its own protocol id / version writes and demands exactly that pair;
@@ -554,7 +594,7 @@ pub fn run_c05() {
         d.extend_from_slice(&[9; 20]);
         st.check(&local, &d, "proto");
     }
-    std::panic::set_hook(prev_hook);
+    mc::quiet_panics(false);
 
     let evals = st.decodes + roundtrips;
     rep.set("evaluations", evals);
@@ -819,8 +859,8 @@ pub fn run_c06() {
     let mut rep = Report::new("C06", "exploration");
     let thorough = rep.thorough();
     let mut st = C06 { decodes: 0, accepted: 0, rejected: 0, distinct: Default::default(), problems: vec![] };
-    let prev_hook = std::panic::take_hook();
-    std::panic::set_hook(Box::new(|_| {}));
+    // caught panics are verdicts here; keep the location-recording hook, just silence its printing
+    mc::quiet_panics(true);
     let msgs = rpc_messages(thorough);
     let mut roundtrips = 0u64;
     let mut shapes: Vec<(String, Vec<u8>)> = vec![];
@@ -1029,7 +1069,7 @@ pub fn run_c06() {
             }
         }
     }
-    std::panic::set_hook(prev_hook);
+    mc::quiet_panics(false);
 
     rep.set("evaluations", st.decodes + roundtrips);
     rep.set("decodes", st.decodes);
